@@ -2,11 +2,11 @@ SPECIFICATION GSpec
 CONSTANTS
   Nodes = {"A", "B"}
   Order <- OrderAB
-  ModsOf <- ModsAB
-  Params = {"value", "sp"}
+  ModsOf <- ModsColl
+  Params = {"value"}
   Values = {1, 2}
   UpErrs = {"hw"}
-  Conns = {"c1", "c2"}
+  Conns = {"c1"}
   StartDown = {}
   ReqArgs <- OneArg
   ReqConns <- OneConn
